@@ -191,19 +191,13 @@ impl ElementMap for TransformerContext {
     }
 
     fn get_element_bbox(&self, el: &SvgElement) -> Result<Option<BoundingBox>> {
-        self.clipped_element_bbox(el, &mut Vec::new())
+        self.clipped_element_bbox(el)
     }
 }
 
 impl TransformerContext {
     /// Bounding box of `el`, intersected with that of any `clipPath` it refers to.
-    /// `clip_chain` holds the clip paths being followed, so a `clipPath` which
-    /// (directly or indirectly) clips itself is an error rather than endless recursion.
-    fn clipped_element_bbox(
-        &self,
-        el: &SvgElement,
-        clip_chain: &mut Vec<ElRef>,
-    ) -> Result<Option<BoundingBox>> {
+    fn clipped_element_bbox(&self, el: &SvgElement) -> Result<Option<BoundingBox>> {
         // (reports a chain of references which never ends)
         el.get_target_element(self)?;
         // The `use` elements leading from `el` to what is finally drawn, outermost
@@ -232,7 +226,7 @@ impl TransformerContext {
         // both the x / y of a `use` and a `clip-path` take effect inside it.
         let mut el_bbox = target_el.local_bbox()?;
         if let Some(bbox) = el_bbox {
-            el_bbox = self.apply_clip_path(target_el, bbox, clip_chain)?;
+            el_bbox = self.apply_clip_path(target_el, bbox)?;
         }
         el_bbox = target_el.transformed(el_bbox)?;
 
@@ -264,7 +258,7 @@ impl TransformerContext {
                 }
             }
             if let Some(bbox) = el_bbox {
-                el_bbox = self.apply_clip_path(use_el, bbox, clip_chain)?;
+                el_bbox = self.apply_clip_path(use_el, bbox)?;
             }
             el_bbox = use_el.transformed(el_bbox)?;
         }
@@ -277,38 +271,46 @@ impl TransformerContext {
         &self,
         el: &SvgElement,
         bbox: BoundingBox,
-        clip_chain: &mut Vec<ElRef>,
     ) -> Result<Option<BoundingBox>> {
+        // Clip paths can be clipped themselves: follow the chain el -> c1 -> c2 ...
+        // (in a loop: its length is not a nesting depth, and not bounded by one)
+        let mut clip_els = vec![];
+        let mut seen = HashSet::new();
+        let mut current = el;
         // Only a `url(#id)` value refers to a clipPath element; `none`, `inherit`
         // and basic shapes are valid values which don't affect the bounding box.
-        let Some(clip_id) = el
+        while let Some(clip_id) = current
             .get_attr("clip-path")
             .and_then(|url| extract_urlref(&url))
-        else {
-            return Ok(Some(bbox));
-        };
-        let clip_el = self
-            .get_element(&clip_id)
-            .ok_or_else(|| SvgdxError::ReferenceError(clip_id.clone()))?;
-        if clip_el.name != "clipPath" {
-            return Ok(Some(bbox));
+        {
+            let clip_el = self
+                .get_element(&clip_id)
+                .ok_or_else(|| SvgdxError::ReferenceError(clip_id.clone()))?;
+            if clip_el.name != "clipPath" {
+                break;
+            }
+            if !seen.insert(clip_id.to_string()) {
+                return Err(SvgdxError::CircularRefError(format!(
+                    "clip-path {clip_id} refers to itself"
+                )));
+            }
+            clip_els.push(clip_el);
+            current = clip_el;
         }
-        if clip_chain.contains(&clip_id) {
-            return Err(SvgdxError::CircularRefError(format!(
-                "clip-path {clip_id} refers to itself"
-            )));
+        // ... and work back from its end: what each clip path lets through is the box
+        // of its content, clipped by the next one.
+        let mut inner: Option<(&SvgElement, Option<BoundingBox>)> = None;
+        for clip_el in clip_els.into_iter().rev() {
+            let mut clip_bbox = clip_el.local_bbox()?;
+            if let (Some(own), Some((inner_el, inner_bbox))) = (clip_bbox, inner) {
+                clip_bbox = inner_el.clip(own, inner_bbox, self);
+            }
+            inner = Some((clip_el, clip_el.transformed(clip_bbox)?));
         }
-        // a chain of clip paths clipping each other is followed recursively
-        if clip_chain.len() >= self.config.depth_limit as usize {
-            return Err(SvgdxError::DepthLimitExceeded(
-                clip_chain.len() as u32 + 1,
-                self.config.depth_limit,
-            ));
-        }
-        clip_chain.push(clip_id);
-        let clip_bbox = self.clipped_element_bbox(clip_el, clip_chain);
-        clip_chain.pop();
-        Ok(clip_el.clip(bbox, clip_bbox?, self))
+        Ok(match inner {
+            Some((clip_el, clip_bbox)) => clip_el.clip(bbox, clip_bbox, self),
+            None => Some(bbox),
+        })
     }
 }
 
